@@ -181,6 +181,18 @@ Proof.
   exact (@cuts_of_trace M0 (m_obs M0) u u' d1 d' Hn HF Hlen Htr Hrel).
 Qed.
 
+Lemma wf_of_single_trace (M0 : cmat T) (d' : dend T) : 1 <= m_obs M0 ->
+  single_trace M0 (m_obs M0) d' -> wf_dend (m_obs M0) (d_steps d') /\ d_obs d' = m_obs M0.
+Proof.
+  intros Hn (u & u' & d1 & HF & Hlen & Htr & Hrel).
+  assert (HF' : exists L, FInv (m_obs M0) d1 L) by (destruct HF as [H|H]; [exists []; exact H|exact H]).
+  destruct HF' as (L' & Hobs & _ & Hends & Hnt & _).
+  destruct (@relabel_heights T (k_ltb K) (k_eqb K) _ _ _ _ _ Hrel) as [_ (l & Hl0 & _)].
+  destruct (@relabel_cuts T (k_ltb K) (k_eqb K) u d1 true l ltac:(lia) ltac:(rewrite Hobs; exact Hlen)
+              ltac:(rewrite Hobs; exact Hends) Hnt Hl0) as (u2 & d2' & Hrel' & Hwfd & Hobs' & _).
+  rewrite Hrel in Hrel'. inversion Hrel'; subst u2 d2'. rewrite Hobs in Hwfd, Hobs'. split; [exact Hwfd|exact Hobs'].
+Qed.
+
 (* ---- whole runs ---- *)
 Lemma sq_single (m : list T) : square_all K m = m.
 Proof. unfold square_all. cbn [kops_of k_sq on_squares]. apply map_id. Qed.
